@@ -2,8 +2,9 @@ from props import S
 
 CFG = {
     "properties_file": "Properties/C08.v",
-    "corr_files": ["Corr/C08.v", "Corr/C08g.v"],
-    "streams": [S("C08", "drive_nfs", 150, 6000), S("C08g", "drive_nfs", 150, 6000)],
+    "corr_files": ["Corr/C08.v", "Corr/C08g.v", "Corr/C08t.v"],
+    "streams": [S("C08", "drive_nfs", 150, 6000), S("C08g", "drive_nfs", 150, 6000),
+                S("C08t", "drive_lts", 120, 3000, race=True)],
     "rule": "C08: request histories (all 22 procedures + MNT, valid and invalid names, stale handles) over a populated "
             "tree with ReadOnly set at construction (60%) or toggled at runtime by UpdateExportOptions; non-trivial = the "
             "history contains at least one NFS3ERR_ROFS reply. C08g: raw argument bytes (valid / truncated / bit-flipped / "
